@@ -110,6 +110,16 @@ pub fn gen_fastpath_pdu(ctx: &mut Ctx, max_total: usize, want_bitmap: bool) -> (
     (updates, rects)
 }
 
+/// a fast-path PDU whose body (everything after the 3-byte long-form header) is exactly `body` bytes: one bitmap
+/// update with one rectangle
+pub fn sized_bitmap_pdu(ctx: &mut Ctx, body: usize) -> (Wr, Vec<Rect>) {
+    let data_len = body.saturating_sub(3 + 4 + 18);
+    let a = ctx.choose("bmp_fill", 256) as u8;
+    let r = Rect { left: 1, top: 2, right: 3, bottom: 4, width: 64, height: 64, bpp: 32, flags: 0, data: (0..data_len).map(|i| a.wrapping_add(i as u8)).collect(), hdr: (0, 0) };
+    let upd = build::fp_update(0x1, &build::bitmap_update_data(&[r.clone()]));
+    (upd, vec![r])
+}
+
 pub fn compare_rects(got: &[rdp::core::event::BitmapEvent], want: &[Rect]) -> Option<(String, String)> {
     let n = got.len().min(want.len());
     for i in 0..n {
@@ -152,9 +162,17 @@ pub fn run(env: &mut Env) -> Outcome {
         let (updates, rects, long_form) = {
             let mut ctx = ctxrc.borrow_mut();
             let max_total = match ctx.choose("pdu_size_c", 6) { 0 | 1 => 400, 2 => 4000, 3 => 32764, 4 => *ctx.pick("pdu_size_b", &[16381usize, 16384, 16387, 16390, 8192, 24576]), _ => 1 + ctx.choose("pdu_size", 32764) as usize };
-            let (u, r) = gen_fastpath_pdu(&mut ctx, max_total, false);
-            let long_form = ctx.chance("fp_long", 1, 3);
-            (u, r, long_form)
+            if ctx.chance("exact_body_size", 1, 10) {
+                // bodies that are exact multiples of the usual block sizes, and their neighbours
+                let body = *ctx.pick("exact_body", &[16384usize, 16383, 16385, 8192, 4096, 32764 - 3, 0x4000 - 1, 0x4000 + 1, 1024]);
+                let (u, r) = sized_bitmap_pdu(&mut ctx, body);
+                ctx.probe("exact_body_size_pdu");
+                (u, r, true)
+            } else {
+                let (u, r) = gen_fastpath_pdu(&mut ctx, max_total, false);
+                let long_form = ctx.chance("fp_long", 1, 3);
+                (u, r, long_form)
+            }
         };
         total_rects += rects.len();
         {
